@@ -27,8 +27,9 @@ fn staircase_tail(r: usize, k: usize, e: &mut Vec<(usize, usize)>) {
 
 fn gen_h(rng: &mut Rng, idx: u64) -> Mat {
     let big = idx % 32 == 31;
-    let r = if big { rng.range(20, 40) } else { rng.range(1, 10) };
-    let n = if rng.chance(0.08) { r } else { r + if big { rng.range(0, 40) } else { rng.range(0, 12) } };
+    let huge = idx % 4096 == 4095 && !cfg!(miri);
+    let r = if huge { rng.range(100, 200) } else if big { rng.range(20, 40) } else { rng.range(1, 10) };
+    let n = if rng.chance(0.08) { r } else { r + if huge { rng.range(0, 200) } else if big { rng.range(0, 40) } else { rng.range(0, 12) } };
     let k = n - r;
     let mut e: Vec<(usize, usize)> = Vec::new();
     let info = |rng: &mut Rng, e: &mut Vec<(usize, usize)>, p: f64| {
@@ -330,7 +331,7 @@ pub fn check_h(l: &mut Local, m: &Mat, rng: &mut Rng) {
 }
 
 pub fn run(run: &mut Run) {
-    run.rule = "H with 1<=r<=40, r<=n<=80 from 12 families (exact staircase, staircase +/- one entry or one entry moved, tridiagonal band with exactly 2r-1 ones, upper bidiagonal, dense random at 5 densities, sparse, invertible dense tail, singular tail where only the LAST column is dependent, duplicate/zero column or zero row, square k=0); oracle = bit-packed rank of the last r columns and own syndrome; messages = 0, all units, 8 random, all-ones; linearity on 4 pairs; non-trivial = encoder built and >= 1 non-zero message encoded, distinct by matrix digest".into();
+    run.rule = "H with 1<=r<=40, r<=n<=80 (every 4096th case 100<=r<=200, n<=400) from 12 families (exact staircase, staircase +/- one entry or one entry moved, tridiagonal band with exactly 2r-1 ones, upper bidiagonal, dense random at 5 densities, sparse, invertible dense tail, singular tail where only the LAST column is dependent, duplicate/zero column or zero row, square k=0); oracle = bit-packed rank of the last r columns and own syndrome; messages = 0, all units, 8 random, all-ones; linearity on 4 pairs; non-trivial = encoder built and >= 1 non-zero message encoded, distinct by matrix digest".into();
     run.assumptions = vec!["which encoder type was used is read from the Debug output of Encoder (corroboration only)".into()];
     let n = if cfg!(miri) { 40 } else { run.tier.n(1_500_000, 60_000_000) };
     run.sub("matrices", n, |l, idx, rng| {
